@@ -27,7 +27,7 @@ func c11Specs() []*bfsSpec {
 			Depth: 6, DepthT: 8},
 		{Name: "c11-plain-reqq1", Cfg: worldCfg{Geom: "gshort", Peers: []peerCfg{{Ext: true, DontHave: 3, ReqQ: 1}}, AutoDrain: true},
 			Setup:    []string{"bf:0:7"},
-			Alphabet: []string{"bf:0:3", "donthave:0:2", "unchoke:0", "choke:0", "want:2:1", "want:1:0", "unwant:2:1", "tick", "ans:0:old:full", "ans:0:new:full", "ans:0:old:short", "adv:2", "adv:31",
+			Alphabet: []string{"bf:0:3", "donthave:0:2", "unchoke:0", "choke:0", "want:2:1", "want:1:0", "unwant:2:1", "tick", "ans:0:old:full", "ans:0:new:full", "ans:0:old:short", "adv:2", "adv:31", "advms:300",
 				"cmd:0:0", "cmd:0:1", "cmd:0:4", "stall:0", "resume:0"},
 			Depth: 6, DepthT: 8},
 		{Name: "c11-queue-revoke", Cfg: worldCfg{Geom: "g2x2", Peers: []peerCfg{{Fast: true, Ext: true, DontHave: 7, ReqQ: 3}}, AutoDrain: true},
@@ -90,12 +90,20 @@ func c11WorldExtras() []*bfsSpec {
 	return []*bfsSpec{
 		// the advertised queue depth counts whether or not the handshake also carries an "m" dictionary
 		{Name: "c11-reqq-without-m", Cfg: worldCfg{Geom: "g2x2", Peers: []peerCfg{{Ext: true, ReqQ: 2, NoM: true}}, AutoDrain: true},
-			Setup:    []string{"bf:0:3", "unchoke:0", "want:0:1", "want:1:0", "cmd:0:0", "cmd:0:1", "cmd:0:2", "cmd:0:3"},
-			Alphabet: []string{"ans:0:old:full", "ans:0:new:full", "adv:2", "adv:31", "tick", "choke:0", "unchoke:0", "unwant:1:0", "cmd:0:2", "cmd:0:3"},
+			Setup:    []string{"bf:0:3", "unchoke:0", "fastlink:0", "want:0:1", "want:1:0", "cmd:0:0", "cmd:0:1", "cmd:0:2", "cmd:0:3"},
+			Alphabet: []string{"ans:0:old:full", "ans:0:new:full", "advms:100", "advms:300", "adv:2", "tick", "choke:0", "unchoke:0", "unwant:1:0", "cmd:0:2", "cmd:0:3"},
 			Depth: 5, DepthT: 7},
+		// a link measured fast and long: only the advertised queue depth limits the pipeline
+		{Name: "c11-fastlink-reqq3", Cfg: worldCfg{Geom: "g9", Peers: []peerCfg{{Fast: true, Ext: true, DontHave: 7, ReqQ: 3}}, AutoDrain: true},
+			Setup:    []string{"haveall:0", "unchoke:0", "fastlink:0", "want:0:1", "want:1:1", "want:2:1", "want:3:0", "want:4:0"},
+			Alphabet: []string{"tick", "cmd:0:0", "cmd:0:1", "cmd:0:2", "cmd:0:3", "cmd:0:4", "ans:0:old:full", "ans:0:new:full", "rej:0:old", "choke:0", "unchoke:0", "advms:100", "adv:2", "unwant:1:1"},
+			Depth: 5, DepthT: 6},
 		// peer exchange at the level of the torrent: who is announced to whom, under which address, and who is dropped
-		{Name: "c11-pex-world", Cfg: worldCfg{Geom: "g2x2", Peers: []peerCfg{natted, pexer, incoming}, AutoDrain: true},
-			Alphabet: []string{"adv:61", "adv:2", "close:0", "close:1", "close:2", "addpeer:2", "bf:0:3"},
+		{Name: "c11-pex-world", Cfg: worldCfg{Geom: "g2x2", Peers: []peerCfg{pexer, natted, incoming}, AutoDrain: true},
+			Alphabet: []string{"adv:61", "adv:2", "close:0", "close:1", "close:2", "addpeer:2", "addpeer:6", "bf:0:3"},
+			Depth: 4, DepthT: 5, Live: pexLiveness},
+		{Name: "c11-pex-world-natted-first", Cfg: worldCfg{Geom: "g2x2", Peers: []peerCfg{natted, pexer}, AutoDrain: true},
+			Alphabet: []string{"adv:61", "adv:2", "close:0", "close:1", "addpeer:2", "addpeer:6"},
 			Depth: 4, DepthT: 5, Live: pexLiveness},
 	}
 }
